@@ -155,3 +155,32 @@ func EnumShapes(pkgPrefix, goPrefix string) []EnumShape {
 	})
 	return out
 }
+
+// HeaderCountFile: one service per number of service-level headers (0..9 and 12), each with
+// several RPCs that declare no method-level headers but different URL-bound parameters
+// (slice capacity after n appends differs by n: shared parameter tables show at some counts only).
+func HeaderCountFile(pkg, goName string) *spec.File {
+	f := &spec.File{Path: "misc/" + goName + "/hcount.proto", Package: pkg, GoImport: "lab/gen/" + goName, GoName: goName}
+	f.Messages = []*spec.Message{
+		{Name: "ByItem", Fields: []*spec.Field{spec.F("item_id", 1, spec.String), spec.F("verbose", 2, spec.Bool).Q("verbose")}},
+		{Name: "Search", Fields: []*spec.Field{spec.F("q", 1, spec.String).QReq("q"), spec.F("page_size", 2, spec.Int32).Q("limit"), spec.F("cursor", 3, spec.String).Q("cursor")}},
+		{Name: "ByOrg", Fields: []*spec.Field{spec.F("org_id", 1, spec.String), spec.F("user_id", 2, spec.String), spec.F("note", 3, spec.String)}},
+		{Name: "Drop", Fields: []*spec.Field{spec.F("drop_id", 1, spec.Int64), spec.F("force", 2, spec.Bool).Q("force")}},
+		{Name: "HCResp", Fields: []*spec.Field{spec.F("ok", 1, spec.Bool)}},
+	}
+	for _, n := range []int{0, 1, 2, 3, 4, 5, 6, 7, 8, 9, 12} {
+		var hs []spec.Header
+		for i := 0; i < n; i++ {
+			hs = append(hs, spec.Header{Name: fmt.Sprintf("X-Svc-%02d", i), Type: "string", Required: i%2 == 0})
+		}
+		in := func(m string) string { return "." + pkg + "." + m }
+		f.Services = append(f.Services, &spec.Service{Name: fmt.Sprintf("H%02dService", n), BasePath: spec.S(fmt.Sprintf("/hc%02d", n)), Headers: hs, Methods: []*spec.Method{
+			{Name: "GetItem", In: in("ByItem"), Out: in("HCResp"), HTTP: &spec.HTTP{Path: "/items/{item_id}", Verb: 1}},
+			{Name: "SearchItems", In: in("Search"), Out: in("HCResp"), HTTP: &spec.HTTP{Path: "/search", Verb: 1}},
+			{Name: "Annotate", In: in("ByOrg"), Out: in("HCResp"), HTTP: &spec.HTTP{Path: "/orgs/{org_id}/users/{user_id}", Verb: 2}},
+			{Name: "DropItem", In: in("Drop"), Out: in("HCResp"), HTTP: &spec.HTTP{Path: "/drops/{drop_id}", Verb: 4}},
+			{Name: "Tagged", In: in("ByItem"), Out: in("HCResp"), HTTP: &spec.HTTP{Path: "/tagged/{item_id}", Verb: 1}, Headers: []spec.Header{{Name: "X-Own", Type: "integer", Required: true}}},
+		}})
+	}
+	return f
+}
